@@ -381,6 +381,8 @@ class MeasuredValue(ExperimentalValue):
         unit = kwargs.get("unit", "")
         name = kwargs.get("name", "")
         save = kwargs.get("save", True)
+        if error is not None and error < 0:
+            raise ValueError("The error must be a positive real number!")
         super().__init__(unit, name, save=save)
         self._value, self._error = float(data), float(error) if error else 0.0
 
